@@ -1,5 +1,5 @@
 _c02_common = dict(harness="C02_deletion.cpp", entries=["harness_c02"], units=CORE, unwind=26, checks="none", object_bits=13, witness_any=True,
-                   timeout={"quick": 900, "thorough": 2400}, mem_gb=6)
+                   timeout={"quick": 900, "thorough": 2400}, mem_gb=3)
 _DELS = [OP_DEL_V, OP_DEL_E, OP_DEL_F, OP_DEL_C]
 PROPS["C02"] = dict(
   jobs=[
